@@ -69,6 +69,12 @@ NOTES = {
  "C20-seed5": "missed by C20 as it stood but caught by C13 (sink space); C20 catches it since every case starts with an export of a decoy sheet into a writer that refuses every byte",
  "C05-seed6": "missed by C05 as it stood (the hidden flag of a row only ever came together with a height and a style); caught since the dims space gives every column / row one of FIVE states, `hidden only` among them",
  "C06-seed6": "missed by C06 as it stood (its tab colour was always an rgb value) but caught by C04 (corpus files with theme tab colours); C06 catches it since the kind `tab-color-theme` (theme index + tint, no rgb) was added",
+ "C01-seed7": "missed by C01 as it stood (no cell of its workbooks had anything attached to it); caught since the space `annotated` puts every core16 value at off-diagonal and diagonal positions with one annotation the reader applies in a pass of its own (hyperlink by URL / by location, comment, data validation, conditional format, merged block, link + comment), with and without a cell at the transposed position",
+ "C03-seed7": "missed by C03 as it stood (attribute specials had no white space written as a character reference); caught since the attr family carries `Unit&#10;price`, `a&#9;b` and `a&#13;&#10;b` in the table-column, defined-name and cell-string channels (the decoder is ElementTree, which keeps referenced white space and normalises literal white space, as XML 1.0 3.3.3 says)",
+ "C05-seed7": "missed by C05 as it stood (rotation values 1 and 45 only); caught since the rotation attribute takes 1, 45, 90, 180 and the sentinel 255 (stacked vertical text), 180 and 255 also in the collision family",
+ "C06-seed7": "missed by C06 as it stood (workbook protection was one lock flag) but caught by C15 (revisions verifier); C06 catches it since the space `protection-fields` sets every SUBSET of the 13 workbook-protection fields (8191 cases, every field with a value of its own so that a neighbour's value shows) and every single field, pair of fields and all 21 fields of the sheet protection",
+ "C07-seed7": "missed by C07 as it stood (no row or column DIMENSION of its seeds had a style, so a cell that wrongly inherits one could not show); caught since the dense, annotated and second-sheet seeds have styled row and column dimensions (with and without a height / width), the reference grid carries the style with the dimension through inserts and removals, and the observation reads it back",
+ "C10-seed7": "missed by C10 as it stood (every move / copy / insert / remove of the alphabet had a non-zero argument); caught since the alphabet has the degenerate but legal calls move_range(.., 0, 0), copy_range(.., 0, 0), insert_new_row(p, 0) and remove_column(p, 0)",
  "C12-seed6": "missed by C12 as it stood (no cell of its histories was a formula) but caught by C11 (corpus files with text formulas); C12 catches it since the space `formula-text` runs the history tree with a marker that reaches its cell as the cached text of a formula (a t=\"str\" cell): its <v> must hold the text, and the text must not turn up in sharedStrings.xml",
  "C14-seed6": "missed by C14 as it stood (every save ran alone; the first verify.log entry shows `suspension-point-not-reached` only because the overlap space was already being written while the hook it needs was not yet in /repo - that is not a detection). Caught since (a) /repo has two guarded hook points inside helper::crypt::encrypt (compound file created / completely written; patch.diff is the change rebased onto that commit, patch-at-65ea4d2.diff the original) and (b) C14 has the space `overlap`: save A suspended at either point, save B (other entry point, other password, other package, same directory) run to completion there, both files judged for their OWN password and package - 3 x 2 x 3 cases, deterministic; C13's overlap space got the same two suspension points and an encrypted B",
  "C16-seed6": "NOT DECIDED by C16 as it stood within 20 minutes (run stopped by hand, exit 137 in the first verify.log entry): the change adds three lock operations per save, each with a hook point as the convention demands, and the COMPLETE exploration of the 2-saver configurations grows combinatorially with them. Caught in 4 s since C16 runs iterative context bounding: a first space with every completely explored configuration at <= 2 preemptions, and the engine skips the remaining spaces when a `first:` space already reports violations (patch.diff is the change rebased onto the commit that added hook sites 13/14, patch-at-65ea4d2.diff the original)",
